@@ -889,9 +889,18 @@ func ruleC01LenPrefix(c *Ctx) {
 						}
 						return true
 					}
-					// a package helper that writes its argument
+					// a package helper that writes its argument (one that hands back a value transforms it: what is written
+					// then is that result, whose length is another matter)
 					if g := u.Common().StaticCallee(); g != nil && c.InPkg(g) && scope[g] {
-						return true
+						hasBlobResult := false
+						for i := 0; i < g.Signature.Results().Len(); i++ {
+							if isBlob(g.Signature.Results().At(i).Type()) {
+								hasBlobResult = true
+							}
+						}
+						if !hasBlobResult {
+							return true
+						}
 					}
 				}
 			}
